@@ -3,6 +3,7 @@ package props
 import (
 	"bytes"
 	"fmt"
+	"github.com/ontio/ontology-crypto/keypair"
 	"math/big"
 
 	ethtypes "github.com/ethereum/go-ethereum/core/types"
@@ -21,7 +22,7 @@ func init() {
 	simkit.Register(&simkit.Prop{
 		ID:             "C19",
 		Desc:           "transaction encoding is canonical and its hash binds the signed content",
-		Rule:           "a run = 10..60 transactions (invoke, deploy, EIP-155; 0..3 signature sets, canonical and hand-assembled scripts) each altered on the wire by a tape-chosen fault: none / byte flip / truncation / trailing bytes / a minimal var-int re-encoded non-minimally (0xfd/0xfe/0xff forms) at a tape-chosen var-int position / a length field changed / only signature bytes changed / size blown over 1 MiB. For every byte string the node's decoder (TransactionFromRawBytes) ACCEPTS: ToArray() equals the consumed bytes; the unsigned part re-encoded from the PARSED FIELDS (a MutableTransaction built from them and serialised, which does not reuse the captured bytes) equals the consumed unsigned prefix; hash = sha256^2(unsigned prefix) (Ontology format) or the EIP-155 transaction hash; a change confined to the signature section leaves the hash unchanged; inputs over the size limit are rejected. non-trivial = >= 3 accepted altered inputs evaluated and >= 1 rejected; distinct = distinct event-trace hash",
+		Rule:           "a run = 10..60 transactions (invoke, deploy, EIP-155; 0..3 signature sets, canonical and hand-assembled scripts) each altered on the wire by a tape-chosen fault: none / byte flip / truncation / trailing bytes / a minimal var-int re-encoded non-minimally (0xfd/0xfe/0xff forms) at a tape-chosen var-int position / a length field changed / only signature bytes changed / size blown over 1 MiB by the code or by the signature section (checked against both TransactionFromRawBytes and the stream decoder Transaction.Deserialization used for blocks and p2p messages). For every byte string the node's decoder (TransactionFromRawBytes) ACCEPTS: ToArray() equals the consumed bytes; the unsigned part re-encoded from the PARSED FIELDS (a MutableTransaction built from them and serialised, which does not reuse the captured bytes) equals the consumed unsigned prefix; hash = sha256^2(unsigned prefix) (Ontology format) or the EIP-155 transaction hash; a change confined to the signature section leaves the hash unchanged; inputs over the size limit are rejected. non-trivial = >= 3 accepted altered inputs evaluated and >= 1 rejected; distinct = distinct event-trace hash",
 		Real:           []string{"core/types transaction codec (Deserialization, IntoMutable, serialisation)", "core/payload codecs", "common zero-copy source/sink"},
 		Stub:           []string{"client and corrupting link (harness)"},
 		Assumptions:    []string{"the only simulator dimension is in-flight corruption; exploration over generated corruptions, not all byte strings", "the signature section is compared byte-for-byte only through ToArray (a different but valid script encoding is not a hash-relevant difference)"},
@@ -37,24 +38,48 @@ func c19VarintPositions(raw []byte) []int {
 	if err != nil || tx.IsEipTx() {
 		return nil
 	}
+	// walk the encoding: every var-int (length prefix or count) of the payload and of the signature section
 	var pos []int
-	// after version(1) type(1) nonce(4) price(8) limit(8) payer(20) = 42: payload
-	switch tx.TxType {
-	case types.InvokeNeo:
-		pos = append(pos, 42) // code length
+	p := 42 // version(1) type(1) nonce(4) price(8) limit(8) payer(20)
+	bad := false
+	varbytes := func() {
+		if bad || p >= len(raw) || raw[p] >= 0xfd {
+			bad = true // only one-byte prefixes are generated; anything else ends the walk
+			return
+		}
+		pos = append(pos, p)
+		p += 1 + int(raw[p])
 	}
-	st := sigSectionStart(raw)
-	if st > 0 {
-		pos = append(pos, st-1) // attributes count
-		pos = append(pos, st)   // signature-set count
-		if len(tx.Sigs) > 0 {
-			pos = append(pos, st+1) // first invoke script length
+	switch tx.TxType {
+	case types.InvokeNeo, types.InvokeWasm:
+		varbytes() // code
+	case types.Deploy:
+		varbytes() // code
+		p++        // vm type
+		for i := 0; i < 5; i++ {
+			varbytes() // name, version, author, email, description
+		}
+	default:
+		bad = true
+	}
+	if !bad && p+1 < len(raw) && raw[p] < 0xfd && raw[p+1] < 0xfd {
+		pos = append(pos, p) // attributes count
+		p++
+		nsig := int(raw[p])
+		pos = append(pos, p) // signature-set count
+		p++
+		for i := 0; i < nsig && !bad; i++ {
+			varbytes() // invocation script
+			varbytes() // verification script
 		}
 	}
+	if !bad && p != len(raw) {
+		panic(simkit.HarnessError{Msg: fmt.Sprintf("var-int walk ended at %d of %d bytes", p, len(raw))})
+	}
 	var ok []int
-	for _, p := range pos {
-		if p < len(raw) && raw[p] < 0xfd {
-			ok = append(ok, p)
+	for _, q := range pos {
+		if q < len(raw) && raw[q] < 0xfd {
+			ok = append(ok, q)
 		}
 	}
 	return ok
@@ -209,15 +234,33 @@ func runC19(c *simkit.Ctx) {
 			sink.WriteUint64(0)
 			payer := w.parties[0].addr(c)
 			sink.WriteBytes(payer[:])
-			sink.WriteVarBytes(make([]byte, types.MAX_TX_SIZE-40+t.Choose(64)))
-			sink.WriteVarUint(0)
-			sink.WriteVarUint(0)
+			if t.Bool() {
+				sink.WriteVarBytes(make([]byte, types.MAX_TX_SIZE-40+t.Choose(64)))
+				sink.WriteVarUint(0)
+				sink.WriteVarUint(0)
+			} else {
+				// small body, the signature section carries the bulk
+				name = "oversize-signature-section"
+				sink.WriteVarBytes([]byte{byte(neovm.PUSH1)})
+				sink.WriteVarUint(0)
+				nsig := 1 + t.Choose(3)
+				sink.WriteVarUint(uint64(nsig))
+				for k := 0; k < nsig; k++ {
+					sink.WriteVarBytes(make([]byte, (types.MAX_TX_SIZE+t.Choose(64))/nsig+1))
+					sink.WriteVarBytes(clVerifyScript([][]byte{keypair.SerializePublicKey(w.parties[0].accs[0].PublicKey)}, 1))
+				}
+			}
 			in = sink.Bytes()
 		}
 		c.Logf("tx %d kind=%d fault=%s len=%d", i, kind, name, len(in))
 		if fault == 7 {
 			if _, err := types.TransactionFromRawBytes(append([]byte(nil), in...)); err == nil {
 				c.Fail("oversize-accepted", name, "a %d-byte transaction was accepted (limit %d)", len(in), types.MAX_TX_SIZE)
+			}
+			// the decoder used for transactions inside blocks and p2p messages reads from a stream
+			stx := new(types.Transaction)
+			if err := stx.Deserialization(common.NewZeroCopySource(append(append([]byte(nil), in...), t.Bytes(t.Choose(4))...))); err == nil {
+				c.Fail("oversize-accepted", name+"/stream-decoder", "a %d-byte transaction was accepted by Transaction.Deserialization (blocks, p2p messages; limit %d)", len(stx.Raw), types.MAX_TX_SIZE)
 			}
 			c.Probe("oversize_rejected")
 			rejected++
